@@ -16,13 +16,13 @@ package statedb
 //@ spec isEnc(o []byte, off mathint, s []byte) bool = forall k int :: 0 <= k && k < len(s) ==> encAt(o, off + k + cnt(s, k), s[k]) && 0 <= cnt(s, k) && k + cnt(s, k) + encW(s[k]) <= encLen(s)
 
 //@ func lemmaCntMono
-//@   property C18 C04
+//@   property C04 C18
 //@   requires 0 <= j && j <= i
 //@   ensures cnt(s, j) <= cnt(s, i) && cnt(s, i) - cnt(s, j) <= i - j
 //@   loop 1 invariant j <= x && x <= i && cnt(s, j) <= cnt(s, x) && cnt(s, x) - cnt(s, j) <= x - j
 
 //@ func appendEncode returns (n, out)
-//@   property C18 C04
+//@   property C04 C18
 //@   requires len(src) == 0 || arr(dst) != arr(src)
 //@   ensures @len n == encLen(src) && n >= len(src)
 //@   ensures @outlen len(out) == len(dst) + n
@@ -42,7 +42,7 @@ package statedb
 //@   loop 1 invariant forall k int :: 0 <= k && k < $i ==> encAt(dst, len(old(dst)) + k + cnt(src, k), src[k]) && 0 <= cnt(src, k) && k + cnt(src, k) + encW(src[k]) <= $i + cnt(src, $i)
 
 //@ func encodedLength
-//@   property C18 C04
+//@   property C04 C18
 //@   pure
 //@   ensures result == encLen(src) && result >= len(src)
 //@   loop 1 invariant 0 <= $i && $i <= len(src)
@@ -53,7 +53,7 @@ package statedb
 //@ spec isComposite(K []byte, secondary []byte, primary []byte) bool = len(K) == encLen(secondary) + 1 + encLen(primary) + 2 && isEnc(K, 0, secondary) && K[encLen(secondary)] == 0 && isEnc(K, encLen(secondary) + 1, primary) && K[len(K)-2] == encLen(primary) / 256 && K[len(K)-1] == encLen(primary) % 256
 
 //@ func encodeNonUniqueKey
-//@   property C18 C04
+//@   property C04 C18
 //@   requires encLen(primary) <= 65535
 //@   ensures @len len(result) == encLen(secondary) + 1 + encLen(primary) + 2
 //@   ensures @encS isEnc(result, 0, secondary)
@@ -64,13 +64,13 @@ package statedb
 //@   ensures @fresh fresh(result)
 
 //@ func nonUniqueKey.primaryLen
-//@   property C18 C04
+//@   property C04 C18
 //@   pure
 //@   ensures len(k) <= 3 ==> result == 0
 //@   ensures len(k) > 3 ==> result == k[len(k)-2] * 256 + k[len(k)-1]
 
 //@ func nonUniqueKey.secondaryLen
-//@   property C18 C04
+//@   property C04 C18
 //@   pure
 //@   ensures len(k) > 3 ==> result == len(k) - (k[len(k)-2] * 256 + k[len(k)-1]) - 3
 
@@ -81,19 +81,19 @@ package statedb
 // entry itself and freshly allocated memory (frame clause), never the shared array.
 
 //@ func (*lpmEntry).searchTail returns (idx, found)
-//@   property C01 C04
+//@   property C01 C02 C04 C06 C09
 //@   trusted
 //@   pure
 //@   ensures 0 <= idx && idx <= len(e.tail)
 //@   ensures found ==> idx < len(e.tail)
 
 //@ func lpmEntry.len
-//@   property C04
+//@   property C01 C02 C04 C06 C09
 //@   pure
 //@   ensures result == (e.used ? 1 + len(e.tail) : 0)
 
 //@ func (*lpmEntry).upsert returns (added)
-//@   property C01 C02 C04 C09
+//@   property C01 C02 C04 C06 C09
 //@   requires e != nil
 //@   requires !e.used ==> len(e.tail) == 0
 //@   ensures @frame onlyFreshExcept(e)
@@ -101,7 +101,7 @@ package statedb
 //@   ensures @count (e.used ? 1 + len(e.tail) : 0) == old(e.used ? 1 + len(e.tail) : 0) + (added ? 1 : 0)
 
 //@ func (*lpmEntry).delete returns (obj, removed)
-//@   property C01 C02 C04 C09
+//@   property C01 C02 C04 C06 C09
 //@   requires e != nil ==> (!e.used ==> len(e.tail) == 0)
 //@   ensures @frame onlyFreshExcept(e)
 //@   ensures @inv e != nil ==> (!e.used ==> len(e.tail) == 0)
@@ -113,7 +113,7 @@ package statedb
 // reported that it removed the object and nothing is left; an entry that still holds other
 // objects is written back. The object count follows exactly those removals.
 //@ func (*lpmIndexTxn).removeKey
-//@   property C04
+//@   property C01 C02 C04 C06 C09
 //@   flag nosafety
 //@   requires l != nil && l.tx != nil
 //@   aftercall (*Txn).LookupExact@1 assume !result.used ==> len(result.tail) == 0
@@ -122,7 +122,7 @@ package statedb
 //@   atcall (*Txn).Insert@1 requires @rest-written-back found && removed && (entry.used ? 1 + len(entry.tail) : 0) > 0 && l.size == old(l.size) - 1
 //@   ensures @size-step l.size == old(l.size) || l.size == old(l.size) - 1
 //@ func (*lpmIndexTxn).insertKey
-//@   property C04
+//@   property C01 C02 C04 C06 C09
 //@   flag nosafety
 //@   requires l != nil && l.tx != nil && l.index != nil
 //@   aftercall (*Txn).LookupExact@2 assume !result.used ==> len(result.tail) == 0
@@ -177,7 +177,7 @@ package statedb
 // registerTable: read-modify-write of the root entirely inside db.mu; the new root is the
 // old one plus exactly one entry.
 //@ func (*DB).registerTable
-//@   property C05 C10 C02
+//@   property C01 C02 C05 C06 C09 C10 C19
 //@   flag nosafety
 //@   requires !GH_held[addr(db.mu)]
 //@   atcall SortableMutexes.Lock@* requires @no-table-locks-under-root-mutex !GH_held[addr(db.mu)]
@@ -203,14 +203,14 @@ package statedb
 //@   ensures result == unwrapOf(recv)
 
 //@ func (*genTable).RegisterInitializer
-//@   property C19 C01 C02
+//@   property C01 C02 C19
 //@   maypanic
 //@   requires t != nil && unwrapOf(txn) != nil && 0 <= t.pos && t.pos < len(unwrapOf(txn).tableEntries) && unwrapOf(txn).tableEntries[t.pos] != nil
 //@   ensures @frame onlyFreshExcept(old(unwrapOf(txn).tableEntries[t.pos]))
 //@   ensures @cow unwrapOf(txn).tableEntries[t.pos].init != nil && fresh(unwrapOf(txn).tableEntries[t.pos].init)
 
 //@ func (*genTable).RegisterInitializer$1$1
-//@   property C19 C01 C02
+//@   property C01 C02 C19
 //@   maypanic
 //@   requires t != nil && unwrapOf(txn) != nil && 0 <= t.pos && t.pos < len(unwrapOf(txn).tableEntries) && unwrapOf(txn).tableEntries[t.pos] != nil
 //@   requires unwrapOf(txn).tableEntries[t.pos].init != nil
@@ -227,7 +227,7 @@ package statedb
 //@   ensures handle.writeTxnState == nil
 
 //@ func (*writeTxnHandle).Commit
-//@   property C02 C05 C06 C19 C10
+//@   property C01 C02 C05 C06 C09 C10 C19
 //@   flag nosafety
 //@   requires handle != nil
 //@   requires handle.writeTxnState != nil ==> handle.writeTxnState.db != nil && !GH_held[addr(handle.writeTxnState.db.mu)] && GH_smus[handle.writeTxnState.smus]
@@ -256,7 +256,7 @@ package statedb
 // Abort: releases the table locks and drops the private clones; it stores no root, closes
 // no channel and touches the root mutex not at all. A closed handle does nothing.
 //@ func (*writeTxnHandle).Abort
-//@   property C02 C06 C05
+//@   property C01 C02 C05 C06 C09 C10 C19
 //@   flag nosafety
 //@   flag noclose
 //@   requires handle != nil
@@ -270,12 +270,12 @@ package statedb
 // index value and hands back the object to notify later. It must not close any watch channel
 // itself, or a watcher would wake up while readers still see the old root (C06).
 //@ func (*lpmIndexTxn).commit
-//@   property C06
+//@   property C01 C02 C04 C06 C09
 //@   flag nosafety
 //@   flag noclose
 //@   requires l != nil && l.tx != nil
 //@ func (*partIndexTxn).commit
-//@   property C06
+//@   property C01 C02 C04 C06 C09
 //@   flag nosafety
 //@   flag noclose
 //@   requires r != nil && r.tx != nil && r.tx.prevTxn != nil
@@ -283,7 +283,7 @@ package statedb
 // Registering a delete tracker (Changes) happens inside a transaction that may still be
 // aborted: it must not close any channel (it used to notify the committed tracker tree).
 //@ func (*writeTxnState).addDeleteTracker
-//@   property C02 C06
+//@   property C02 C05 C06 C07 C08 C10
 //@   flag nosafety
 //@   flag nilcheck=txn
 //@   flag assumepre=the-tracker-tree-of-a-table-entry-is-a-well-formed-part.Tree
@@ -377,7 +377,7 @@ package statedb
 //    no other index was touched;
 //  - otherwise: the revision grows by exactly one and the stored object carries it.
 //@ func (*writeTxnState).modify returns (oldObj, hadOld, watch, err)
-//@   property C03 C09 C07 C08
+//@   property C02 C03 C04 C07 C08 C09
 //@   maypanic
 //@   flag nosafety
 //@   flag nilcheck=txn
@@ -406,7 +406,7 @@ package statedb
 //@ func (*writeTxnState).hasDeleteTrackers
 //@   inline
 //@ func (*writeTxnState).delete returns (obj, hadOld, err)
-//@   property C03 C09 C08 C07
+//@   property C02 C03 C04 C07 C08 C09
 //@   maypanic
 //@   flag nosafety
 //@   flag nilcheck=txn
@@ -456,7 +456,7 @@ package statedb
 // locks held: the write transaction it opened is committed.
 //@ spec ixPos(x any) mathint
 //@ func graveyardWorker
-//@   property C08 C10 C07
+//@   property C02 C05 C07 C08 C10
 //@   flag nosafety
 //@   maypanic
 //@   requires db != nil && !GH_held[addr(db.mu)] && (forall a ptr :: !GH_smus[a])
@@ -506,14 +506,14 @@ package statedb
 // Only committed deletions are delivered: the graveyard is read from the committed root of
 // whatever transaction is passed in (never from a write transaction's working copy).
 //@ func (*deleteTracker).deleted
-//@   property C07
+//@   property C07 C08
 //@   flag nosafety
 //@   ensures @source-is-committed result != nil && srcOf(result.next) == croot(txn)[tposOf(dt.table)].indexes[2]
 
 // dualIterator.next merges two revision-ordered streams: it hands out the smaller head
 // (left on ties), consumes exactly that side and never drops a buffered element.
 //@ func (*dualIterator).next returns (obj, revision, fromLeft, ok)
-//@   property C07
+//@   property C07 C08
 //@   requires it != nil
 //@   requires (it.left.iter == nil || true) && (it.right.iter == nil || true)
 //@   ensures @left-smaller ok && fromLeft ==> revision == it.left.rev && !it.left.ok && (it.right.ok ==> it.left.rev <= it.right.rev)
@@ -528,7 +528,7 @@ package statedb
 //@ func newDualIterator
 //@   inline
 //@ func (*changeIterator).refresh
-//@   property C07
+//@   property C07 C08
 //@   maypanic
 //@   flag nosafety
 //@   requires it != nil && it.dt != nil && it.dt.table == it.table
@@ -543,7 +543,7 @@ package statedb
 // reports pending changes through the closed channel.
 //@ constglobal closedWatchChannel
 //@ func (*changeIterator).Next returns (seq, watch)
-//@   property C07
+//@   property C07 C08
 //@   maypanic
 //@   flag nosafety
 //@   requires it != nil && it.dt != nil && it.dt.table == it.table
@@ -571,7 +571,7 @@ package statedb
 //@   trusted
 //@   pure
 //@ func (*DB).WriteTxn
-//@   property C05 C10
+//@   property C01 C02 C05 C06 C09 C10 C19
 //@   flag nosafety
 //@   maypanic
 //@   flag dyncall.New=pure
@@ -632,7 +632,7 @@ package statedb
 // handed back to the index carries the revision allocated for this write (new.revision), never
 // the stored object's revision - guards and by-revision queries rely on it.
 //@ func (*genTable).Modify$1
-//@   property C03 C09
+//@   property C02 C03 C04 C07 C08 C09
 //@   flag nosafety
 //@   flag dyncall.merge=pure
 //@   ensures @keeps-the-new-revision result.revision == new.revision
@@ -640,27 +640,27 @@ package statedb
 // The typed table operations are thin wrappers: each passes the caller's guard revision (or none)
 // and the table itself down to modify/delete, and reports exactly what came back.
 //@ func (*genTable).InsertWatch
-//@   property C03 C09
+//@   property C02 C03 C04 C07 C08 C09
 //@   flag nosafety
 //@   flag assumepre=transaction-table-entries-well-formed
 //@   atcall (*writeTxnState).insert@1 requires @no-guard $2 == 0 && unboxptr($1) == t
 //@ func (*genTable).CompareAndSwap
-//@   property C03 C09
+//@   property C02 C03 C04 C07 C08 C09
 //@   flag nosafety
 //@   flag assumepre=transaction-table-entries-well-formed
 //@   atcall (*writeTxnState).insert@1 requires @guard-is-the-callers-revision $2 == rev && unboxptr($1) == t
 //@ func (*genTable).Modify
-//@   property C03 C09
+//@   property C02 C03 C04 C07 C08 C09
 //@   flag nosafety
 //@   flag assumepre=transaction-table-entries-well-formed
 //@   atcall (*writeTxnState).modify@1 requires @no-guard $2 == 0 && unboxptr($1) == t
 //@ func (*genTable).Delete
-//@   property C03 C09
+//@   property C02 C03 C04 C07 C08 C09
 //@   flag nosafety
 //@   flag assumepre=transaction-table-entries-well-formed
 //@   atcall (*writeTxnState).delete@1 requires @no-guard $2 == 0 && unboxptr($1) == t
 //@ func (*genTable).CompareAndDelete
-//@   property C03 C09
+//@   property C02 C03 C04 C07 C08 C09
 //@   flag nosafety
 //@   flag assumepre=transaction-table-entries-well-formed
 //@   atcall (*writeTxnState).delete@1 requires @guard-is-the-callers-revision $2 == rev && unboxptr($1) == t
@@ -669,13 +669,13 @@ package statedb
 // old keys are visited for removal - no early exit skips that pass - and whenever it exists
 // afterwards (new.revision != 0) its new keys are inserted.
 //@ func (*partIndexTxn).reindex
-//@   property C04
+//@   property C01 C02 C04 C06 C09
 //@   flag nosafety
 //@   flag dyncall.objectToKeys=pure
 //@   mustcall KeySet.Foreach@1 when @new-keys-inserted new.revision != 0
 //@   mustcall KeySet.Foreach@2 when @old-keys-visited-for-removal old.revision != 0
 //@ func (*lpmIndexTxn).reindex
-//@   property C04
+//@   property C01 C02 C04 C06 C09
 //@   flag nosafety
 //@   flag dyncall.objectToKeys=pure
 //@   mustcall KeySet.Foreach@1 when @new-keys-inserted new.revision != 0
@@ -689,7 +689,7 @@ package statedb
 //@   trusted
 //@   pure
 //@ func partGet returns (iobj, watch, found)
-//@   property C06
+//@   property C01 C02 C04 C06 C09
 //@   flag nosafety
 //@   ensureslocal @unique-get-watch unique ==> watch == getWatchOf(tree, keyId(ikey))
 //@   ensureslocal @non-unique-covering-watch !unique ==> watch == prefixWatchOf(tree, keyId(searchKey))
@@ -697,7 +697,7 @@ package statedb
 //@   trusted
 //@   pure
 //@ func partPrefix returns (it, watch)
-//@   property C06
+//@   property C01 C02 C04 C06 C09
 //@   flag nosafety
 //@   ensureslocal @covering-watch watch == prefixWatchOf(tree, keyId(key))
 
@@ -706,7 +706,7 @@ package statedb
 // shared with the committed root is never written in place, and the collector is triggered
 // afterwards so that deletions only this iterator was holding back are collected.
 //@ func (*deleteTracker).close
-//@   property C08 C10 C02
+//@   property C02 C05 C07 C08 C10
 //@   flag nosafety
 //@   maypanic
 //@   flag assumepre=transaction-table-entries-well-formed
@@ -742,7 +742,7 @@ package statedb
 //@   trusted
 //@   modifies H_statedb_deleteTracker_* GH_stores GH_lastStored
 //@ func (*genTable).Changes returns (it, err)
-//@   property C07 C08
+//@   property C02 C05 C07 C08 C10
 //@   flag nosafety
 //@   maypanic
 //@   flag assumepre=transaction-table-entries-well-formed
